@@ -4,6 +4,8 @@ package main
 
 import (
 	"fmt"
+	"os"
+	"os/exec"
 	"strings"
 
 	"github.com/intuitivelabs/sipsp"
@@ -334,6 +336,7 @@ func c04Isolation(r *Run) {
 		}
 		rec()
 	}
+	c04Race(r, st)
 	st.States = scheds
 	st.Evals = scheds
 	st.Nontrivial = scheds
@@ -369,4 +372,71 @@ func init() {
 		return out
 	}
 	replayers["api-int"] = func(prop string, c *Case) []*Violation { return nil }
+}
+
+// c04Race runs the free-running -race binary (built by run.sh against /repo's working tree).
+func c04Race(r *Run, st *Stats) {
+	bin := os.Getenv("VERIF_RACE_BIN")
+	if bin == "" {
+		st.Extra["concurrent_race_pass"] = "not run (VERIF_RACE_BIN unset: use ./run.sh C04)"
+		return
+	}
+	secs := "1.5"
+	if !r.quick() {
+		secs = "20"
+	}
+	out, bad := runRace(bin, secs)
+	st.Extra["concurrent_race_pass"] = strings.TrimSpace(lastLine(out))
+	if bad != "" {
+		cs := &Case{Kind: "race", Driver: "concurrent", Text: bad, Extra: map[string]any{"secs": secs}}
+		r.Col.add(&Violation{Property: "C04", Site: "isolation/concurrent", Rule: "parallel-calls-on-distinct-objects-do-not-interfere", Class: strings.Fields(bad)[0], Detail: bad, Case: cs})
+	}
+}
+
+func lastLine(s string) string {
+	l := strings.Split(strings.TrimSpace(s), "\n")
+	return l[len(l)-1]
+}
+
+func runRace(bin, secs string) (string, string) {
+	cmd := exec.Command(bin, secs)
+	cmd.Env = append(os.Environ(), "GORACE=halt_on_error=1")
+	b, err := cmd.CombinedOutput()
+	out := string(b)
+	if err == nil {
+		return out, ""
+	}
+	switch {
+	case strings.Contains(out, "DATA RACE"):
+		// first frames of the report identify the racing accesses
+		var fr []string
+		for _, l := range strings.Split(out, "\n") {
+			if strings.Contains(l, "sipsp.") && len(fr) < 4 {
+				fr = append(fr, strings.TrimSpace(l))
+			}
+		}
+		return out, "DATA-RACE " + strings.Join(fr, " | ")
+	case strings.Contains(out, "CONCURRENT-MISMATCH"):
+		return out, "CONCURRENT-MISMATCH " + lastLine(out)
+	}
+	return out, "CONCURRENT-CRASH " + lastLine(out)
+}
+
+func init() {
+	replayers["race"] = func(prop string, c *Case) []*Violation {
+		bin := os.Getenv("VERIF_RACE_BIN")
+		if bin == "" {
+			bin = "/verif/bin/race"
+		}
+		secs, _ := c.Extra["secs"].(string)
+		if secs == "" {
+			secs = "3"
+		}
+		for try := 0; try < 3; try++ {
+			if _, bad := runRace(bin, secs); bad != "" {
+				return []*Violation{{Property: prop, Site: "isolation/concurrent", Rule: "parallel-calls-on-distinct-objects-do-not-interfere", Class: strings.Fields(bad)[0], Detail: bad, Case: c}}
+			}
+		}
+		return nil
+	}
 }
